@@ -4,6 +4,7 @@
 (class entries read from the live `__pane_info__`, the table of external-call results computed
 with the real stdlib, `str()` of odd keys, factory products).  `run(scen, ctx)` executes the op.
 """
+import pathlib
 import collections, copy, datetime, enum, gc, io, json, os, re, sys, traceback, types, typing as t, warnings
 from decimal import Decimal
 from fractions import Fraction
@@ -427,7 +428,7 @@ def ext_tables(ctx, values, tys_json, bounds=()):
     seen = set()
     for s in scalars + extra:
         key = (type(s).__name__, repr(s))
-        if key not in seen and isinstance(s, (type(None), bool, int, float, complex, str, bytes, bytearray, Decimal, Fraction)):
+        if key not in seen and isinstance(s, (type(None), bool, int, float, complex, str, bytes, bytearray, Decimal, Fraction, pathlib.PurePath)):
             seen.add(key)
             cands.append(s)
     fns = []
@@ -438,7 +439,7 @@ def ext_tables(ctx, values, tys_json, bounds=()):
     for pname, pcls in S.PATHS.items():
         if pname in text:
             target = S.PATHS['Path:PurePath'] if pname == 'Path:PathLike' else pcls
-            fns.append((pname if pname != 'Path:PathLike' else 'Path:PurePath', target, (str,)))
+            fns.append((pname if pname != 'Path:PathLike' else 'Path:PurePath', target, (str, pathlib.PurePath)))
     for d in ('datetime', 'date', 'time'):
         if f'"{d}"' in text:
             fns.append(('fromiso:' + d, S.SCALARS[d].fromisoformat, (str,)))
